@@ -16,12 +16,37 @@ def universe(kind, nfr, rng):
         ("short", lambda j: ([0, 200 + j, cps("s"), nfr - 1], api.make_item(kind, "s", nfr - 1, j))),
         ("long", lambda j: ([0, 300 + j, cps("l"), nfr + 1], api.make_item(kind, "l", nfr + 1, j))),
         ("empty", lambda j: ([0, 400 + j, cps("e"), 0], api.make_item(kind, "e", 0, j))),
+        # a track object that was first looked at (its frame count read) and THEN given arrays of another length through its
+        # public attributes: what counts is the length it has when it is offered
+        ("shrunk", lambda j: ([0, 500 + j, cps("k"), nfr - 1], resized(kind, "k", nfr, nfr - 1, j))),
+        ("regrown", lambda j: ([0, 600 + j, cps("r"), nfr], resized(kind, "r", nfr - 1, nfr, j))),
         ("int", lambda j: ([1, 7], 7)),
         ("none", lambda j: ([3], None)),
         ("str", lambda j: ([2, cps("g0")], "g0")),
         ("foreign", lambda j: ([4, 1], api.make_item(other, "g0", nfr, j))),
     ]
     return u
+
+
+VALID = ("good", "regrown")
+ARRAYS = {"D3": ("data",), "EM": ("data",), "FT": ("application_point", "force", "torque")}
+
+
+def resized(kind, label, n0, n1, j):
+    t = api.make_item(kind, label, n0, j)
+    _ = (getattr(t, "nFrames", None), getattr(t, "nSamples", None), getattr(t, "nBytes", None), repr(t))        # the track is looked at ...
+    src = api.make_item(kind, label, n1, j)
+    for a in ARRAYS[kind]:
+        setattr(t, a, getattr(src, a))                                                        # ... and then re-dimensioned
+    return t
+
+
+def true_len(kind, x):
+    """the number of frames an item really has (its arrays' length), not what an attribute says"""
+    try:
+        return int(getattr(x, ARRAYS[kind][0]).shape[0])
+    except Exception:
+        return getattr(x, "nFrames", getattr(x, "nSamples", None))
 
 
 def run_one(chk, kind, nfr, prior, calls, uni, how="ctor"):
@@ -122,7 +147,7 @@ def run_one(chk, kind, nfr, prior, calls, uni, how="ctor"):
                 del ps[-2:]
         after = list(api.items_of(kind, b))
         obs.append((rc, [registry.get(id(x), ["?"]) for x in after], before == after and all(x is y for x, y in zip(before, after)),
-                    [getattr(x, "nFrames", getattr(x, "nSamples", None)) for x in after]))
+                    [true_len(kind, x) for x in after]))
     return mtracks, mcalls, obs
 
 
@@ -136,7 +161,7 @@ def judge(chk, kind, nfr, prior, calls, mtracks, mcalls, obs, mres, how="ctor"):
             found = "the block adopted the caller's list: appending to that list afterwards put a wrong-length track and an int into the block"
         elif any(l != nfr for l in lens):
             found = "the block now holds a track with %r frames (block: %d)" % ([l for l in lens if l != nfr][0], nfr)
-        elif c[0] == "add" and c[1].split("@")[0] != "good" and rc is None:
+        elif c[0] == "add" and c[1].split("@")[0] not in VALID and rc is None:
             found = "adding a %s object was accepted" % c[1]
         elif rc is not None and not same:
             found = "%s raised %s but the block's tracks changed" % (c[0], rc)
@@ -144,7 +169,7 @@ def judge(chk, kind, nfr, prior, calls, mtracks, mcalls, obs, mres, how="ctor"):
             found = "the assignment did not install exactly the given list" + (" (a %s over the block's own tracks)" % c[1] if c[0] == "assign_self" else "")
         elif c[0] == "assign_self" and rc is not None:
             found = "assigning a %s over the block's own (valid) tracks raised %s" % (c[1], rc)
-        elif c[0] == "assign" and rc is None and any(n != "good" for n in c[1]):
+        elif c[0] == "assign" and rc is None and any(n not in VALID for n in c[1]):
             found = "a list with an invalid element (%r) was accepted" % (c[1],)
         elif c[0] == "assign_bad" and rc is None:
             found = "assigning %r was accepted" % (c[1],)
@@ -190,7 +215,7 @@ def run(chk):
                             jobs.append((kind, nfr, prior, list(seq), uni, "attr"))
     chk.rule = ("call sequences (length <= 2 quick / 3 thorough, sampled at the longest length) of add-track and whole-list "
                 "assignment on 3D-marker, force/torque and EMG blocks (frame counts 1-9, given to the constructor or assigned to the still-empty block; 0 or 2 prior tracks); the objects: a "
-                "track of the right length, one frame short, one frame long, empty, an int, None, a str, a track of another "
+                "track of the right length, one frame short, one frame long, empty, a track that was looked at and then re-dimensioned through its public array attributes (to the right / to a wrong length), an int, None, a str, a track of another "
                 "class, at every position of lists of length 0-3 (as list, tuple and generator), and non-iterable right-hand "
                 "sides, lists that equal the current tracks element-wise under numpy broadcasting but hold one wrong-length track, and right-hand sides derived lazily from the block's own tracks (generator expression, filter, map, islice, iter, the list itself, reversed); observed after each call: exception class, identity and frame counts of block.tracks; non-trivial = "
                 "contains an invalid object")
@@ -207,7 +232,7 @@ def run(chk):
     mres = common.run_model_sharded([(41, [nfr, mt, mc]) for (kind, nfr, prior, seq, uni, how), (mt, mc, obs) in zip(jobs, runs)])
     for (kind, nfr, prior, seq, uni, how), (mt, mc, obs), m in zip(jobs, runs, mres):
         flat = [n for c in seq for n in ([c[1].split("@")[0]] if c[0] == "add" else c[1] if c[0] == "assign" else ["good"] if c[0] == "assign_self" else ["bad"])]
-        chk.note_case((kind, nfr, prior, repr(seq), how), any(n != "good" for n in flat))
+        chk.note_case((kind, nfr, prior, repr(seq), how), any(n not in VALID for n in flat))
         chk.count("%s %s" % (kind, "+".join(c[0] for c in seq)))
         chk.count("frame count given by the constructor" if how == "ctor" else "frame count assigned to the empty block afterwards")
         judge(chk, kind, nfr, prior, seq, mt, mc, obs, m[1], how)
